@@ -3,7 +3,7 @@
    (gen/Gen_Bessel.v) and which is executed in Coq on binary64 against the implementation.  Rep1 t0 v d: d carries the value and the derivative of
    the curve v at t0.  NOT proved here (and not provable by these means): that the rational / asymptotic approximations are close to the true Bessel
    functions -- that clause is decided on the implementation against 60-digit references.  Only `exact` proofs here. *)
-From ND Require Import Tactics C02_proofs C01_towers C01_faa C07_proofs C09_proofs Prog Agree C04_inst C03_proofs C03_second C03_third C03_mixed Bessel C14_proofs C14_prog.
+From ND Require Import Tactics C02_proofs C01_towers C01_faa C07_proofs C09_proofs Prog Agree C04_inst C03_proofs C03_second C03_third C03_mixed C03_mixed3 Bessel C14_proofs C14_prog.
 From NDgen Require Import Gen_Bessel.
 Local Open Scope R_scope.
 
@@ -74,7 +74,8 @@ Proof. exact example_c14. Qed.
    Each branch of the hand model is proved equal, in every real-number instance, to the evaluation of a program of Hand/Prog.v built from the
    regenerated tables; the program theorems of C03 then give, for the real function g the branch computes on its domain ok:
    the value and derivative over Dual (Rep1), the second derivative over Dual2 (Rep2), the third over Dual3 (Rep3), both first and the mixed
-   second partial over HyperDual along two-parameter families (RepH), and every directional first derivative over HyperHyperDual, DualVec,
+   second partial over HyperDual along two-parameter families (RepH), all eight parts incl. the mixed third partial over HyperHyperDual along
+   three-parameter families (RepT, see C03_RepT_meaning), and every directional first derivative over HyperHyperDual, DualVec,
    Dual2Vec and HyperDualVec (RepX; any component, any dimension, any presence pattern).  BranchOK is exactly that conjunction: *)
 Theorem C14_BranchOK_meaning : forall (g : R -> R) (ok : R -> Prop) (br : forall (T : Type) (dn : DN R T), T -> T),
   BranchOK g ok br <->
@@ -82,6 +83,7 @@ Theorem C14_BranchOK_meaning : forall (g : R -> R) (ok : R -> Prop) (br : forall
    (forall t0 v (X : Dual2 R), Rep2 t0 v X -> ok (v t0) -> Rep2 t0 (fun t => g (v t)) (br _ _ X)) /\
    (forall t0 v (X : Dual3 R), Rep3 t0 v X -> ok (v t0) -> Rep3 t0 (fun t => g (v t)) (br _ _ X)) /\
    (forall s0 t0 v (X : HyperDual R), RepH s0 t0 v X -> ok (v s0 t0) -> RepH s0 t0 (fun s t => g (v s t)) (br _ _ X)) /\
+   (forall s0 t0 u0 v (X : HyperHyperDual R), RepT s0 t0 u0 v X -> ok (v s0 t0 u0) -> RepT s0 t0 u0 (fun s t u => g (v s t u)) (br _ _ X)) /\
    (forall k, (k = 1 \/ k = 2 \/ k = 3)%nat -> forall t0 v (X : HyperHyperDual R),
       RepX (part:=part_HHD) (wf:=fun _ => True) k t0 v X -> ok (v t0) -> RepX (part:=part_HHD) (wf:=fun _ => True) k t0 (fun t => g (v t)) (br _ _ X)) /\
    (forall (i : nat) t0 v (X : DualVec R),
